@@ -71,6 +71,9 @@ def run_bounded(pid, tier, seed):
 def check_property(pid, tier, seed, relock=False, only=None, jobs=None, verbose=False):
     import z3
     t0 = time.time()
+    if only is None:
+        import shutil
+        shutil.rmtree(os.path.join(REPLAYS, pid), ignore_errors=True)
     entry = manifest_entry(pid)
     level = entry.get("level_claimed", {}).get("category", "other")
     run = runner.run_property(pid, tier, seed, jobs=jobs, only=only)
